@@ -266,6 +266,7 @@ pub fn derive_spec(seed: u64, tier: Tier, idx: usize, corpus: &[String], shape: 
     // forks are serialised by this kind of VM (~550/s in total), so only a slice of the groups
     // gets a process per launch, and those use the first six plans only
     let isolation = if tier == Tier::InProc && rng.chance(1, 14) { "process" } else { "thread" };
+    let isolation = if tier == Tier::InProc && family == "W12-divergent" { "process" } else { isolation };
     let plans = if isolation == "process" { plans.into_iter().take(6).collect() } else { plans };
     Spec {
         launcher: launcher.to_owned(),
@@ -463,7 +464,10 @@ fn obs_inproc_isolated(
     orders: &mut Vec<String>,
     mirror_mismatches: &mut u64,
 ) -> (LaunchObs, CallLog) {
-    let end = crate::sim_fork::in_child(envs.exec.cap, || {
+    // divergent programs are the point of one small family: do not wait long for them
+    let cap = if spec.family == "W12-divergent" { envs.exec.cap.min(std::time::Duration::from_millis(1500)) } else { envs.exec.cap };
+    let end = crate::sim_fork::in_child(cap, || {
+        sim_inproc::EVALUATE_EVEN_IF_CAPPED.store(true, std::sync::atomic::Ordering::Relaxed);
         let mut child_orders = vec![];
         let mut child_mismatches = 0u64;
         let (obs, log) = obs_inproc(spec, path, capture_dir, plan, envs.step_budget, &mut child_orders, &mut child_mismatches);
@@ -670,7 +674,23 @@ pub fn run_spec(spec: &Spec, envs: &Envs, scratch_tag: &str, stop_at_first: bool
                 || out.obs[i].abnormal.is_some()
                 || starved(&out.obs[0])
                 || starved(&out.obs[i]);
-            if any_abnormal {
+            // One exception: in the exec tier, one launch exhausting its stack (the runtime says
+            // so) while the other, given exactly the same work, ends normally. Nothing the plans
+            // vary touches the stack of the thread gram does its work on (an exact-size mapping),
+            // so on a tree where that holds the two cannot differ; if they do, the work has moved
+            // to a stack whose usable size depends on the launch (S54: `check` on the main
+            // thread, whose start the kernel randomises) - a difference of exit status that real
+            // launches show too.
+            let overflowed = |o: &LaunchObs| {
+                o.abnormal.as_deref() == Some("signal 6") && o.field("stderr").contains("has overflowed its stack")
+            };
+            let normal = |o: &LaunchObs| o.abnormal.is_none() && !starved(o);
+            let stack_verdict_differs = spec.tier == Tier::Exec
+                && ((overflowed(&out.obs[0]) && normal(&out.obs[i])) || (normal(&out.obs[0]) && overflowed(&out.obs[i])));
+            if stack_verdict_differs {
+                out.status = "violation".to_owned();
+                out.note = "stack exhausted in one launch, normal ending in the other".to_owned();
+            } else if any_abnormal {
                 // One of the two launches was ended by a signal (stack exhaustion, memory cap):
                 // resource endings are not gram output, so nothing is concluded either way.
                 out.status = "inconclusive".to_owned();
@@ -707,6 +727,7 @@ pub fn kinds_in(text: &str) -> BTreeMap<&'static str, usize> {
         ("is stuck", "stuck"),
         ("Error when reading file", "read"),
         ("panicked", "panic"),
+        ("has overflowed its stack", "stack-overflow"),
     ];
     let mut out = BTreeMap::new();
     for (needle, kind) in table {
@@ -821,4 +842,112 @@ pub fn diff_signature(a: &LaunchObs, b: &LaunchObs) -> (String, Vec<String>) {
 
 pub fn scratch_root(work: &Path, run_id: &str) -> PathBuf {
     work.join(run_id)
+}
+
+/// Stack-boundary probe (exec tier): find, for one command form, the deepest program of a family
+/// that still ends normally under the reference plan, then launch the programs around that depth
+/// under plans that displace the initial stack by amounts within what the kernel's own
+/// randomisation does (environment padding of 0-8 KiB). gram does its work on a thread whose
+/// stack is an exact-size mapping, so the verdict at a given depth must not depend on the
+/// padding; it does as soon as some of the work runs on the main thread.
+pub fn stack_boundary_probe(seed: u64, idx: usize, envs: &Envs, scratch_tag: &str) -> (Spec, Outcome) {
+    let mut rng = Rng::derive(seed, 0xB0DA, idx as u64);
+    let form = [ArgvForm::Check, ArgvForm::Run, ArgvForm::Bare][idx % 3];
+    let shape = rng.below(3);
+    let program = |d: usize| -> Vec<u8> {
+        match shape {
+            0 => format!("{}1{}\n", "(".repeat(d), ")".repeat(d)),
+            1 => {
+                let mut t = String::new();
+                for i in 0..d {
+                    t.push_str(&format!("c{i} = {}\n", if i == 0 { "1".to_owned() } else { format!("c{} + 1", i - 1) }));
+                }
+                t.push_str(&format!("c{}\n", d.saturating_sub(1)));
+                t
+            }
+            _ => format!("{}1\n", "1 + ".repeat(d)),
+        }
+        .into_bytes()
+    };
+    let reference = Plan::plain("reference", rng.bytes16());
+    let base = Spec {
+        tier: Tier::Exec,
+        form,
+        colour: Colour::NoColor,
+        path_abs: false,
+        path_form: "plain".to_owned(),
+        file_name: format!("b{idx}.g"),
+        family: "W11-stack-boundary".to_owned(),
+        source: vec![],
+        plans: vec![reference.clone()],
+        launcher: "exec".to_owned(),
+        mode: "stages".to_owned(),
+        isolation: "thread".to_owned(),
+    };
+    let ends_normally = |d: usize| -> Option<bool> {
+        let mut s = base.clone();
+        s.source = program(d);
+        let o = run_spec(&s, envs, scratch_tag, true);
+        let first = o.obs.first()?;
+        match first.abnormal.as_deref() {
+            None => Some(true),
+            Some("signal 6") => Some(false),
+            Some(_) => None, // timeout or another signal: no boundary to be found this way
+        }
+    };
+    // exponential then binary search for the largest depth that ends normally
+    let mut lo = 8usize;
+    let mut hi = 16usize;
+    let limit = 40_000usize;
+    let mut found = false;
+    loop {
+        match ends_normally(hi) {
+            Some(true) => {
+                lo = hi;
+                if hi >= limit {
+                    break;
+                }
+                hi = (hi * 2).min(limit);
+            }
+            Some(false) => {
+                found = true;
+                break;
+            }
+            None => break,
+        }
+    }
+    let mut last = (base.clone(), run_spec(&base, envs, scratch_tag, true));
+    if !found {
+        last.0.source = program(lo);
+        last.1.note = "no stack boundary below the depth limit".to_owned();
+        return last;
+    }
+    while hi - lo > 1 {
+        let mid = lo + (hi - lo) / 2;
+        match ends_normally(mid) {
+            Some(true) => lo = mid,
+            Some(false) => hi = mid,
+            None => break,
+        }
+    }
+    // around the boundary, under stack displacements within the kernel's own range
+    let mut launches = 0;
+    for d in lo.saturating_sub(1)..=lo + 2 {
+        let mut s = base.clone();
+        s.source = program(d);
+        for pad in [1500u32, 3000, 5000, 8000] {
+            let mut p = Plan::plain("layout_only", reference.key);
+            p.env_pad = pad;
+            s.plans.push(p);
+        }
+        let o = run_spec(&s, envs, scratch_tag, true);
+        launches += o.launches;
+        let stop = o.status != "ok";
+        last = (s, o);
+        if stop {
+            break;
+        }
+    }
+    last.1.launches = launches.max(last.1.launches);
+    last
 }
